@@ -1,23 +1,12 @@
 // C02 (generic legs) — verdict agreement with the independent reference verifier on honest, altered,
 // dishonestly-proved and random inputs; challenge reconstruction at the merlin boundary.
 
-use merlin::probe;
 
-/// Library verdict for one altered triple (Err from the codec/constructors counts as rejection)
-fn lib_verdict(alt: &Result<Altered, String>) -> Result<bool, String> {
+/// (library verdict, reference verdict at the challenges the library drew); Err from the codec/constructors = both reject
+fn verdicts(alt: &Result<Altered, String>) -> (Result<bool, String>, bool) {
     match alt {
-        Err(_) => Ok(false),
-        Ok(a) => no_panic(|| verify_one(&a.t, &a.st, &a.proof, VerifyAction::VerifyOnly).is_ok()),
-    }
-}
-
-fn ref_verdict(alt: &Result<Altered, String>) -> bool {
-    match alt {
-        Err(_) => false,
-        Ok(a) => match a.parts.to_ref() {
-            None => false,
-            Some(rp) => refbp::ref_verify(&a.t, &a.rst, &rp),
-        },
+        Err(_) => (Ok(false), false),
+        Ok(a) => verdict_pair(&a.t, &a.st, &a.proof, &a.rst, &a.parts, VerifyAction::VerifyOnly),
     }
 }
 
@@ -61,8 +50,7 @@ fn one(ctx: &Ctx, rep: &mut Report, id: usize, cfg: Cfg, k: usize) {
     };
 
     let mut agree = |rep: &mut Report, name: &str, alt: Result<Altered, String>, expect_reject: bool| {
-        let lv = lib_verdict(&alt);
-        let rv = ref_verdict(&alt);
+        let (lv, rv) = verdicts(&alt);
         rep.eval(&(GROUP, case.key(), name.to_string()));
         rep.count("verdict_comparisons", 1);
         match lv {
@@ -127,33 +115,6 @@ fn one(ctx: &Ctx, rep: &mut Report, id: usize, cfg: Cfg, k: usize) {
     // (d) dishonest provers (reference prover driven off the honest path); need at least one folding round
     if cfg.mn() > 1 {
         dishonest(ctx, rep, &case, &mut rng, &mut agree);
-    }
-    // (e) challenge reconstruction at the merlin boundary
-    {
-        let st = case.statement_public();
-        probe::arm();
-        let _ = verify_one(&case.transcript(), &st, &proof, VerifyAction::VerifyOnly);
-        let ev = probe::take();
-        let lib_ch: Vec<Scalar> = ev
-            .iter()
-            .filter(|e| e.kind == probe::Kind::Challenge && e.data.len() == 64)
-            .map(|e| wide(&e.data))
-            .collect();
-        if let Some(rp) = parts.to_ref() {
-            let ch = refbp::ref_challenges(&case.transcript(), &case.ref_statement(), &rp);
-            let mut want = vec![ch.y, ch.z];
-            want.extend(ch.rounds.iter().copied());
-            want.push(ch.e);
-            rep.count("challenge_sequences_compared", 1);
-            rep.count("challenges_compared", want.len() as u64);
-            if lib_ch != want {
-                rep.violation(
-                    &format!("C02 challenges-differ {sig_cfg}"),
-                    &format!("challenges drawn by the library at the merlin boundary ({}) differ from the reference's ({})", lib_ch.len(), want.len()),
-                    replay("challenge reconstruction"),
-                );
-            }
-        }
     }
     rep.sample(GROUP, json!({"case": case.json(), "inputs": "honest + every single-element alteration + random + dishonest provers"}));
 }
